@@ -1052,6 +1052,13 @@ class Interp:
                     return handler
         return None
 
+    def _caught_exactly(self, cls: str) -> bool:
+        """an enclosing try names exactly ``cls`` (not merely a base class of it)"""
+        for level in self._try_stack:
+            if cls in level:
+                return True
+        return False
+
     def _caught(self, cls: str) -> bool:
         """whether an enclosing try of the current function chain catches ``cls``"""
         for level in self._try_stack:
@@ -1491,6 +1498,14 @@ class Interp:
 
     def ex_Attribute(self, expr, sts, fr, raised):
         sts = self.ev(expr.value, sts, fr, raised)
+        if isinstance(expr.ctx, ast.Load) and not (
+                isinstance(expr.value, ast.Name) and expr.value.id == 'self') and \
+                self._caught_exactly('ext:AttributeError'):
+            # `try: x = obj.attr / except AttributeError:` -- the lookup may fail
+            for s in sts:
+                r = s.fork()
+                event = self._emit(r, 'getattr', expr, fr, exit='ext:AttributeError')
+                raised.append((('raise', Exc('ext:AttributeError', event)), r))
         if isinstance(expr.ctx, ast.Load):
             props = self._property_callees(expr, fr)
             if props:
